@@ -145,7 +145,23 @@ def run_parser(body, boundary_hdr, how, cl, factory=None, keep=0):
     for f in form.list or []:
         v = f.value
         out.append((f.name, f.filename, f.type, v))
+    _last["acc"] = accessor_view(form)
     return out
+
+
+_last = {}
+
+
+def accessor_view(form):
+    """what keys / getlist / getfirst / getvalue of the decoded form say, per name"""
+    view = {}
+    try:
+        for name in form.keys():
+            view[name] = (form.getlist(name), form.getfirst(name), form.getvalue(name))
+        view[None] = list(form.keys())
+    except Exception as err:
+        view["error"] = repr(err)
+    return view
 
 
 def generate(rng, tier):
@@ -327,6 +343,25 @@ def oracle(case):
                         bad = "part %d: %s is %r, sent %r" % (i, what, gs, ws)
                         break
                 break
+    if not bad and not regime.startswith("e2e") and "acc" in _last:
+        # the decoded form's own accessors say the same as its list of parts
+        acc = _last.pop("acc")
+        names = []
+        for n_, _, _, _ in want:
+            if n_ not in names:
+                names.append(n_)
+        if "error" in acc:
+            bad = "the accessors of the decoded form raised %s" % acc["error"]
+        elif acc.get(None) != names:
+            bad = "keys() of the decoded form are %r, the parts' names in order of first occurrence %r" % (acc.get(None), names)
+        else:
+            for n_ in names:
+                vals = [c_ for m_, _, _, c_ in want if m_ == n_]
+                wantv = (vals, vals[0], vals if len(vals) > 1 else vals[0])
+                if acc.get(n_) != wantv:
+                    bad = "getlist/getfirst/getvalue(%r) = %r, the parts of that name hold %r" % (
+                        n_, tuple(repr(x)[:60] for x in acc.get(n_, ())), tuple(repr(x)[:60] for x in wantv))
+                    break
     if not bad and factory is not None:
         files = [f for _, f, _, _ in want if f]
         if factory.calls != files:
